@@ -155,6 +155,12 @@ def gen_history(rnd) -> dict | None:
             if rnd.random() < 0.5 and v["shape"]:
                 v["shape"][0] += 1
             h["ops"].append({"op": "assign", "field": it["name"], "value": v})
+    # no history beyond the reference's resource bound reaches the extracted model (a power of millions of bits stalls it, DESIGN 10)
+    as_case = lambda vals: {"params": [{"name": f["name"], "hint": f["hint"]} for f in fields], "args": vals, "provider": None}  # noqa: E731
+    for op in h["ops"]:
+        vals = op["values"] if "values" in op else {**base["args"], op["field"]: op["value"]}
+        if GC.reference(as_case(vals)).get("v") == "unknown":
+            return None
     return h
 
 
